@@ -200,6 +200,11 @@ func (sendH) Execute(c *Case, res *Result) {
 			sort.Strings(names)
 			for _, id := range sortedKeys(want) {
 				wl := state.Workloads[id]
+				if wl != nil && got[id+"|"] != 0 {
+					// an existing target gets its results per file; a further result that names no
+					// file is one result too many for that target
+					w.viol("C29", "result-count", "extra-result-without-file", fmt.Sprintf("%d result(s) naming no file for the existing target %s on top of the per-file results; messages %v", got[id+"|"], shortID(id), got))
+				}
 				for _, name := range names {
 					n := 0
 					for k, c := range got {
